@@ -511,6 +511,27 @@ var ghostLevelOf func(ll *LevelList, t *Table) int
 // ---- scans (C07, C03). The tables that may hold keys with the prefix (selection assumed),
 // merged: per key the newest record of any of them, deletes included - the caller merges
 // with newer data and drops the deletes after that.
+// A table may hold keys with a prefix if the prefix lies inside its key range OR its first or
+// last key starts with the prefix (the prefix itself then sorts before the first key).
+// RangePrefixCompare orders a table against a prefix for the binary search over a sorted level:
+// 0 exactly for the tables that may hold the prefix.
+func ghostMayHoldPrefix(t *Table, prefix []byte) bool {
+	return (bytes.Compare(t.startKey, prefix) <= 0 && bytes.Compare(t.endKey, prefix) >= 0) || bytes.HasPrefix(t.startKey, prefix) || bytes.HasPrefix(t.endKey, prefix)
+}
+
+//@ func Table.RangeContainsPrefix
+//@   property C07 C03
+//@   modifies nothing
+//@   ensures result == ghostMayHoldPrefix(t, prefix)
+
+//@ func Table.RangePrefixCompare
+//@   property C07 C03
+//@   modifies nothing
+//@   ensures (bytes.HasPrefix(t.startKey, prefix) || bytes.HasPrefix(t.endKey, prefix)) ==> result == 0
+//@   ensures !(bytes.HasPrefix(t.startKey, prefix) || bytes.HasPrefix(t.endKey, prefix)) && bytes.Compare(t.startKey, prefix) > 0 ==> result == 1
+//@   ensures !(bytes.HasPrefix(t.startKey, prefix) || bytes.HasPrefix(t.endKey, prefix)) && bytes.Compare(t.startKey, prefix) <= 0 && bytes.Compare(t.endKey, prefix) < 0 ==> result == -1
+//@   ensures ghostMayHoldPrefix(t, prefix) ==> result == 0
+
 //@ func LevelList.AllTablesForPrefix
 //@   property C07 C03
 //@   trusted
